@@ -81,6 +81,56 @@ def rule_filter_gate(ctx: Ctx, repo: Repo) -> None:
                 ctx.check([c[0] for c in calls] == [want], "R-C17.1", fi.fq,
                           "an admitted (or unfiltered) event is always dispatched to its handler",
                           construct=f"{lab}: dispatched {[c[0] for c in calls]}")
+    # a filter is any callable: its own truth value says nothing (a callable collection of names may be empty and reject
+    # everything); only its *answer* may decide
+    for event in ("call", "return"):
+        for verdict in ("accept", "reject"):
+            sc = TracerScenario(repo, "__call__", {"should_trace": S("filter", truth=False)})
+            calls3: List[str] = []
+            asked3: List[Tuple[V, ...]] = []
+
+            def hook3(call, fname, fval, args, kwargs, st, _c=calls3, _sc=sc, _a=asked3, _v=verdict):
+                if isinstance(fval, S) and fval.name == "self" and isinstance(call.func, ast.Attribute):
+                    if call.func.attr in ("handle_call", "handle_return"):
+                        _c.append(call.func.attr)
+                        return K(None)
+                    if call.func.attr == "should_trace":
+                        _a.append(tuple(args))
+                        return K(_v == "accept")
+                return TracerScenario.call_hook(_sc, call, fname, fval, args, kwargs, st)
+
+            sc.ri.call_hook = hook3
+            outs = sc.run({pframe: fr, pevent: K(event), parg: S("arg")})
+            if len(outs) != 1:
+                raise AnalysisError("__call__: forked")
+            want3 = [] if verdict == "reject" else ["handle_call" if event == "call" else "handle_return"]
+            ctx.check(calls3 == want3 and (len(asked3) == 1 or verdict == "accept"), "R-C17.1", fi.fq,
+                      "a filter object that is itself falsy (a callable with __len__ 0 or __bool__ False) is still asked, and its answer decides",
+                      construct=f"event={event}, falsy filter object that would {verdict}: asked {len(asked3)} time(s), dispatched {calls3}")
+    # the gate depends on nothing but the event kind and the filter's answer: with every other attribute of the code object
+    # unknown, the interpretation must not have to ask about it
+    for event in ("call", "return"):
+        for verdict in ("absent", "accept"):
+            attrs2: Dict[str, V] = {"should_trace": K(None) if verdict == "absent" else S("filter")}
+            sc = TracerScenario(repo, "__call__", attrs2, may_fork=("*",))
+            calls4: List[str] = []
+
+            def hook4(call, fname, fval, args, kwargs, st, _c=calls4, _sc=sc):
+                if isinstance(fval, S) and fval.name == "self" and isinstance(call.func, ast.Attribute):
+                    if call.func.attr in ("handle_call", "handle_return"):
+                        _c.append(call.func.attr)
+                        return K(None)
+                    if call.func.attr == "should_trace":
+                        return K(True)
+                return TracerScenario.call_hook(_sc, call, fname, fval, args, kwargs, st)
+
+            sc.ri.call_hook = hook4
+            anycode = R("code", co_name=U("any function name"), co_filename=U("any file"), co_firstlineno=U("any line"), co_flags=U("any flags"))
+            outs = sc.run({pframe: R("frame", f_code=anycode), pevent: K(event), parg: S("arg")})
+            asked_about = sorted(set(sc.ri.forked))
+            ctx.check(len(outs) == 1 and not asked_about, "R-C17.1", fi.fq,
+                      "whether an admitted event is recorded depends on the event kind and the filter's answer only - not on the function's name, file or flags",
+                      construct=f"event={event} filter={verdict}: the gate also depends on {asked_about}" if asked_about else f"event={event} filter={verdict}")
     # the verdict used for an event is the filter's verdict about *that* code object, whatever was asked before
     # (two code objects may share file name, first line and name: lambdas, one-line definitions, generated code)
     c1 = R("code", co_name=K("step"), co_filename=K("/src/app.py"), co_firstlineno=K(10), ident=K(1))
@@ -265,3 +315,11 @@ def run(ctx: Ctx, repo: Repo, tier: str) -> None:
     rule_main_gate(ctx, repo)
     rule_default_filter(ctx, repo)
     rule_forwarding(ctx, repo)
+    # the filter is asked about the frame's code object, the logger receives the *function* looked up for that frame: if
+    # the lookup can return a function whose code is not that very object (a twin with equal code in another file), a
+    # rejected function is recorded in place of the accepted one.  C02's attribution rules are that necessary condition.
+    from . import c02 as _c02
+    from .memo_rules import tracer_attribution_history
+    ctx.note("R-C02.4 below is C02's attribution rule, run here as a necessary condition of C17 (the recorded function is the one whose code the filter judged)")
+    _c02.rule_attribution(ctx, repo)
+    tracer_attribution_history(ctx, repo, "R-C02.4")
